@@ -376,7 +376,7 @@ M benign array-grow-double array.go '	out := sliceHeader{
 		Cap: max(in.Len+len, 2*in.Cap),
 		Len: in.Len,
 	}'
-M benign early-flush encoder.go '	if e.wb.Len() >= e.approxBlockSize {' '	if e.wb.Len() >= e.approxBlockSize/2 {'
+M C09 early-flush encoder.go '	if e.wb.Len() >= e.approxBlockSize {' '	if e.wb.Len() >= e.approxBlockSize/2 {'
 M benign error-wording file.go '			return fmt.Errorf("reading item count. %w", err)' '			return fmt.Errorf("could not read the block record count: %w", err)' file.go '			return fmt.Errorf("sync block does not match. Have %X, want %X", sig, fh.Sync)' '			return fmt.Errorf("block sync marker mismatch")'
 M benign deflate-best-speed file.go 'flate.NewWriter(&d.out, flate.DefaultCompression)' 'flate.NewWriter(&d.out, flate.BestSpeed)'
 M benign registry-plain-mutex build.go '	registryMutex sync.RWMutex' '	registryMutex rwAsMutex' build.go 'func Register(typ reflect.Type, f CodecBuildFunc) {' 'type rwAsMutex struct{ sync.Mutex }
